@@ -91,7 +91,7 @@ QUICK = dict(
     unresolvable=dict(Ko=0, Kc=0, kmax=0, nmax=0),
 )
 QUICK_BOUNDS = ('sum of four focus groups — shapes: 4x4 star forms x <=1 fixed positional x <=1 keyword name (callee or foreign) x '
-                'callee <=1 named, bare outer; contexts: 16 statement contexts (incl. nested defs whose parameter shadows a star) x 6 routes x pristine/absent stars; taints: 38 '
+                'callee <=1 named, bare outer; contexts: 16 statement contexts (incl. nested defs whose parameter shadows a star) x 6 routes x pristine/absent stars; taints: 37 '
                 'taint + 7 non-taint statements before/after the call; unresolvable: 3 kinds x 16 contexts')
 THOROUGH = dict(
     shapes=dict(Ko=1, Kc=2, kmax=2, nmax=2),
